@@ -317,10 +317,15 @@ def decode_address(rep, idx):
     rets = [(c.norm(v), [(c.norm(fr[1]), fr[2]) for fr in gen if fr[0] == 'pyif' and c.norm(fr[1]) in (is_res, is_win)])
             for v, gen, ln in c.t.returns]
     r1 = [r for r in rets if r[0] == A]
-    rep.check(len(r1) == 1 and r1[0][1] == [(is_res, True)], "C03.6", site, "an address inside a resource decodes to that resource",
-              f"{[ (ir.show(v)[:60], [(ir.show(x), p) for x, p in cs]) for v, cs in rets]}")
+    looped = any(isinstance(n, ast.While) for n in ast.walk(c.fi.node))
+    rep.form(len(r1) == 1 and r1[0][1] == [(is_res, True)], "C03.6", site, "an address inside a resource decodes to that resource",
+             f"{[ (ir.show(v)[:60], [(ir.show(x), p) for x, p in cs]) for v, cs in rets]}",
+             wrong=None if looped or r1 else "no path returns the looked-up assignment itself")
     r2 = [r for r in rets if r[0][0] == 'call' and r[0][1] == ('attr', A, 'decode_address')]
-    if len(r2) != 1 or r2[0][1] not in ([(is_res, False), (is_win, True)],):
+    if (len(r2) != 1 or r2[0][1] not in ([(is_res, False), (is_win, True)],)) and looped:
+        rep.unk("C03.6", site, "an address inside a window is decoded by the window's map",
+                "the descent into windows is written as a loop; the verified form is the recursive one")
+    elif len(r2) != 1 or r2[0][1] not in ([(is_res, False), (is_win, True)],):
         rep.bad("C03.6", site, "an address inside a window is decoded by the window's map", "no recursive decode under `elif id(assignment) in self._windows`")
     else:
         arg = r2[0][0][2][0] if r2[0][0][2] else None
